@@ -18,49 +18,56 @@ def _cog(n, part, thms, eq=None, **kw):
 
 
 # --- Cog13: mass, momentum hold; energy is violated (site Cog13:energy) ----------------------------
-_cog(13, 'mass', ['cog13_mass'], 'mass')
-_cog(13, 'momentum', ['cog13_momentum'], 'momentum')
-_cog(13, 'energy', ['cog13_energy_residual', 'cog13_energy_ne_zero', 'cog13_default_wellDefined', 'Finding_cog13_energy'],
+_cog(13, 'mass', ['cog13_mass', 'cog13_tree_agree', 'cog13_mass_tree'], 'mass')
+_cog(13, 'momentum', ['cog13_momentum', 'cog13_tree_agree', 'cog13_momentum_tree'], 'momentum')
+_cog(13, 'energy', ['cog13_energy_residual', 'cog13_energy_ne_zero', 'cog13_default_wellDefined', 'Finding_cog13_energy',
+                     'cog13_tree_agree', 'cog13_energy_tree_ne_zero', 'Finding_cog13_energy_tree'],
      'energy', finding=True)                                            # KNOWN FINDING  site 'Cog13:energy'
 _o.append(obl('C01.cog13.domain', 'EPV.Props.C01.Cog13', ['EPV.C01.Finding_cog13_domain'], ['Cog13'],
               O.cog_domain(13), finding=True))                          # KNOWN FINDING  site 'Cog13:domain'
 # --- Cog14: all three hold where the generated expressions are well defined -----------------------
-_cog(14, 'mass', ['cog14_mass'], 'mass')
-_cog(14, 'momentum', ['cog14_momentum'], 'momentum')
-_cog(14, 'energy', ['cog14_energy'], 'energy')
+_cog(14, 'mass', ['cog14_mass', 'cog14_tree', 'cog14_mass_tree'], 'mass')
+_cog(14, 'momentum', ['cog14_momentum', 'cog14_tree', 'cog14_momentum_tree'], 'momentum')
+_cog(14, 'energy', ['cog14_energy', 'cog14_tree', 'cog14_energy_tree'], 'energy')
 _o.append(obl('C01.cog14.domain', 'EPV.Props.C01.Cog14', ['EPV.C01.Finding_cog14_domain'], ['Cog14'],
               O.cog_domain(14), finding=True))                          # KNOWN FINDING  site 'Cog14:domain'
 # --- Cog16 ------------------------------------------------------------------------------------------
-_cog(16, 'mass', ['cog16_mass'], 'mass')
-_cog(16, 'momentum', ['cog16_momentum'], 'momentum')
-_cog(16, 'energy', ['cog16_energy'], 'energy')
+_cog(16, 'mass', ['cog16_mass', 'cog16_tree', 'cog16_mass_tree'], 'mass')
+_cog(16, 'momentum', ['cog16_momentum', 'cog16_tree', 'cog16_momentum_tree'], 'momentum')
+_cog(16, 'energy', ['cog16_energy', 'cog16_tree', 'cog16_energy_tree'], 'energy')
 # --- Cog17: momentum holds; mass and energy are violated; negative T, rho at the defaults ----------
-_cog(17, 'mass', ['cog17_mass_residual', 'cog17_mass_ne_zero', 'cog17_witness_wellDefined', 'Finding_cog17_mass'],
+_cog(17, 'mass', ['cog17_mass_residual', 'cog17_mass_ne_zero', 'cog17_witness_wellDefined', 'Finding_cog17_mass',
+                   'cog17_tree_agree', 'cog17_mass_tree_ne_zero', 'Finding_cog17_mass_tree'],
      'mass', finding=True)                                              # KNOWN FINDING  site 'Cog17:mass'
-_cog(17, 'momentum', ['cog17_momentum'], 'momentum')
-_cog(17, 'energy', ['cog17_energy_residual', 'cog17_energy_two_point', 'Finding_cog17_energy'],
+_cog(17, 'momentum', ['cog17_momentum', 'cog17_tree_agree', 'cog17_momentum_tree'], 'momentum')
+_cog(17, 'energy', ['cog17_energy_residual', 'cog17_energy_two_point', 'Finding_cog17_energy', 'cog17_tree_agree',
+                     'Finding_cog17_energy_tree'],
      'energy', finding=True)                                            # KNOWN FINDING  site 'Cog17:energy'
 _o.append(obl('C01.cog17.domain', 'EPV.Props.C01.Cog17', ['EPV.C01.Finding_cog17_domain'], ['Cog17'],
               O.cog_domain(17), finding=True))                          # KNOWN FINDING  site 'Cog17:domain'
 # --- Cog18: all three hold; negative temperature at the class defaults ------------------------------
-_cog(18, 'mass', ['cog18_mass'], 'mass')
-_cog(18, 'momentum', ['cog18_momentum'], 'momentum')
-_cog(18, 'energy', ['cog18_energy'], 'energy')
+_cog(18, 'mass', ['cog18_mass', 'cog18_tree', 'cog18_mass_tree'], 'mass')
+_cog(18, 'momentum', ['cog18_momentum', 'cog18_tree', 'cog18_momentum_tree'], 'momentum')
+_cog(18, 'energy', ['cog18_energy', 'cog18_tree', 'cog18_energy_tree'], 'energy')
 _o.append(obl('C01.cog18.domain', 'EPV.Props.C01.Cog18', ['EPV.C01.Finding_cog18_domain'], ['Cog18'],
               O.cog_domain(18), finding=True))                          # KNOWN FINDING  site 'Cog18:domain'
 # --- Cog19: both smooth regions ---------------------------------------------------------------------
-_cog(19, 'mass', ['cog19_post_mass', 'cog19_pre_domain', 'cog19_pre_mass'], 'mass')
-_cog(19, 'momentum', ['cog19_post_momentum', 'cog19_pre_momentum'], 'momentum')
-_cog(19, 'energy', ['cog19_post_energy', 'cog19_pre_energy'], 'energy')
+_T19 = ['cog19_tree_post', 'cog19_tree_pre']
+_cog(19, 'mass', ['cog19_post_mass', 'cog19_pre_domain', 'cog19_pre_mass'] + _T19 + ['cog19_mass_tree'], 'mass')
+_cog(19, 'momentum', ['cog19_post_momentum', 'cog19_pre_momentum'] + _T19 + ['cog19_momentum_tree'], 'momentum')
+_cog(19, 'energy', ['cog19_post_energy', 'cog19_pre_energy'] + _T19 + ['cog19_energy_tree'], 'energy')
 # --- Cog20: both smooth regions; energy behind the shock needs gamma = (k+3)/(k+1) ------------------
-_cog(20, 'mass', ['cog20_post_mass', 'cog20_pre_mass'], 'mass')
-_cog(20, 'momentum', ['cog20_post_momentum', 'cog20_pre_momentum'], 'momentum')
+_T20 = ['cog20_shock_continuousAt', 'cog20_tree_post', 'cog20_tree_pre']
+_cog(20, 'mass', ['cog20_post_mass', 'cog20_pre_mass'] + _T20 + ['cog20_mass_tree'], 'mass')
+_cog(20, 'momentum', ['cog20_post_momentum', 'cog20_pre_momentum'] + _T20 + ['cog20_momentum_tree'], 'momentum')
 _cog(20, 'energy', ['cog20_post_energy_residual', 'cog20_post_energy_partial', 'Finding_cog20_post_energy',
-                    'cog20_pre_energy'], 'energy', finding=True)        # KNOWN FINDING  site 'Cog20:energy'
+                    'cog20_pre_energy'] + _T20 + ['cog20_energy_tree_partial', 'Finding_cog20_energy_tree'],
+     'energy', finding=True)        # KNOWN FINDING  site 'Cog20:energy'
 # --- Cog21: both smooth regions (k = 2, gamma = 5, no conduction) -----------------------------------
-_cog(21, 'mass', ['cog21_post_mass', 'cog21_pre_mass'], 'mass')
-_cog(21, 'momentum', ['cog21_post_momentum', 'cog21_pre_momentum'], 'momentum')
-_cog(21, 'energy', ['cog21_post_energy', 'cog21_pre_energy'], 'energy')
+_T21 = ['cog21_shock_continuousAt', 'cog21_tree_post', 'cog21_tree_pre']
+_cog(21, 'mass', ['cog21_post_mass', 'cog21_pre_mass'] + _T21 + ['cog21_mass_tree'], 'mass')
+_cog(21, 'momentum', ['cog21_post_momentum', 'cog21_pre_momentum'] + _T21 + ['cog21_momentum_tree'], 'momentum')
+_cog(21, 'energy', ['cog21_post_energy', 'cog21_pre_energy'] + _T21 + ['cog21_energy_tree'], 'energy')
 
 # --- Noh family (rho, u, p, e form) -----------------------------------------------------------------
 _N = 'EPV.Props.C01.Noh'
@@ -76,6 +83,7 @@ _noh('C01.noh.post.energy', ['noh_leaves', 'noh_post_energy'], ['Noh'], O.noh('e
 _noh('C01.noh.pre.mass', ['noh_leaves', 'noh_pre_mass'], ['Noh'], None)
 _noh('C01.noh.pre.momentum', ['noh_leaves', 'noh_pre_momentum'], ['Noh'], None)
 _noh('C01.noh.pre.energy', ['noh_leaves', 'noh_pre_energy'], ['Noh'], None)
+_noh('C01.noh.tree', ['noh_tree_post', 'noh_tree_pre', 'noh_tree'], ['Noh'], None)
 _noh('C01.noh2.mass', ['noh2_leaves', 'noh2_mass'], ['Noh2'], O.noh2('mass'))
 _noh('C01.noh2.momentum', ['noh2_leaves', 'noh2_momentum'], ['Noh2'], O.noh2('momentum'))
 _noh('C01.noh2.energy', ['noh2_leaves', 'noh2_energy'], ['Noh2'], O.noh2('energy'))
@@ -84,6 +92,8 @@ _noh('C01.noh2cog.momentum', ['noh2cog_leaves'] + ['noh2cog_L%d_momentum' % l fo
      O.noh2cog('momentum'))
 _noh('C01.noh2cog.energy', ['noh2cog_leaves'] + ['noh2cog_L%d_energy' % l for l in (5, 7, 9)], ['Noh2Cog'],
      O.noh2cog('energy'))
+_noh('C01.noh2.tree', ['noh2_tree_agree', 'noh2_tree'], ['Noh2'], None)
+_noh('C01.noh2cog.tree', ['noh2cog_tree_eq', 'noh2cog_tree_agree', 'noh2cog_tree'], ['Noh2Cog'], None)
 
 PROP = dict(
     groups=['hydro'],
@@ -100,7 +110,9 @@ PROP = dict(
           '(Cog16: the documented alpha = 1 - 1/k, beta = alpha/2 - 3; Cog18: any c, a, lambda0, gamma = (k+3)/(k+1); '
           'Cog19-21: no conduction; flat temperature or lambda0 = 0), via the closed form of the flux divergence for '
           'fields that are power laws in r (Lemmas/Euler1Db.lean). Shocked solutions 19-21 and Noh: each smooth region '
-          'separately. FALSE on the current tree and recorded as findings with closed-form residuals: Cog13 energy '
+          'separately; every leaf theorem is transferred to the RETURNED (tree-level) fields at points away from the '
+          'coded shock position / for t > 0 resp. t < 1 (…_tree theorems, germ congruence lemmas in Lemmas/Euler1Db.lean). '
+          'FALSE on the current tree and recorded as findings with closed-form residuals: Cog13 energy '
           '(residual Gamma T/(t (beta+3)(gamma-1))), Cog17 mass (residual 2(2 beta+5)/(1-alpha) rho/t) and energy, '
           'Cog20 energy behind the shock unless gamma = (k+3)/(k+1) (proved as _partial under that hypothesis); '
           'domain findings: Cog13, Cog14, Cog17, Cog18 leave the reals / return negative T or rho on part of the '
